@@ -190,7 +190,15 @@ def oracle_c05(st, info, snaps):
                 raise Violation("outside-region-kept", f"entry {idx} outside the addressed region changed from {a} to {b} "
                                 f"({c['rhs_kind']} source, key form {form})", cls="outside-region-kept:" + c["rhs_kind"], form=form)
     kind = c["rhs_kind"]
-    if info.outcome == "raise" and c["tsnap"][2] != "float64" and kind in ("num", "arr"):
+    if not hasattr(st, "own_int"):
+        st.own_int = []
+    if kind in ("num", "arr") and info.outcome == "ret" and c["tsnap"][2] == "float64" and t.values.dtype != np.float64:
+        # a number or a FlodymArray source never asks for another element type: if the float target is integer typed now, that is
+        # flodym's doing, and what it later does to fractional values is not excused as "the caller's integer array"
+        st.own_int.append(t)
+        st.probe("float_target_retyped_by_number_or_array_source")
+    callers_type = t.values.dtype != np.float64 and not any(x is t for x in st.own_int)
+    if info.outcome == "raise" and c["tsnap"][2] != "float64" and kind in ("num", "arr") and not any(x is t for x in st.own_int):
         return  # a value that cannot be cast into an integer / float32 target (NaN, inf, overflow): not defined by the property
     if kind == "num":
         st.cnt("number-fills-region")
@@ -198,7 +206,7 @@ def oracle_c05(st, info, snaps):
             raise Violation("number-fills-region", f"assigning a number raised {exc_class(info.exc)} (key form {form})",
                             cls="number-fills-region", form=form)
         for idx in region:
-            if t.values.dtype != np.float64 and float(np.array(c["rhs"]).astype(t.values.dtype)) != c["rhs"]:
+            if callers_type and float(np.array(c["rhs"]).astype(t.values.dtype)) != c["rhs"]:
                 continue
             if t.values[idx] != c["rhs"]:
                 raise Violation("number-fills-region", f"entry {idx} of the region is {t.values[idx]}, not {c['rhs']}",
@@ -280,9 +288,9 @@ def oracle_c05(st, info, snaps):
         for p in kept:
             lab.append(tdims[p][2][idx[p]])
         want = marg[tuple(lab)]
-        if t.values.dtype != np.float64 and float(np.array(want).astype(t.values.dtype)) != want:
+        if callers_type and float(np.array(want).astype(t.values.dtype)) != want:
             continue  # lossy cast into an integer / float32 target: the property does not define it
-        if t.values.dtype.kind in "iu" and not exact:
+        if callers_type and t.values.dtype.kind in "iu" and not exact:
             continue  # a float sum that is whole only up to rounding noise is truncated by an integer target (1.9999999999999998 -> 1)
         got = float(t.values[idx])
         rtol = 1e-9 if svals.dtype == np.float64 else 1e-4  # a float32 source is summed in float32
